@@ -277,7 +277,7 @@ def make_inputs(chk, tier):
             cases.append({"kind": "soup", "files": {"root.fea": soup(rng)}, "glyphs": GLYPHS if rng.random() < 0.5 else None})
         else:
             files, expect = include_graph(rng, len(cases))
-            c = {"kind": "include-graph", "files": files, "glyphs": None}
+            c = {"kind": "include-graph", "files": files, "glyphs": GLYPHS if rng.random() < 0.5 else None}
             if expect is not None:
                 c["expect_cycle_report"] = expect
             cases.append(c)
@@ -375,8 +375,9 @@ def classify_problem(p, case=None):
     if p.startswith("cyclic / too deep") and case is not None:
         nested = sum(1 for t in case["files"].values() if re.search(r"feature\s+\w+\s*\{[^}]*include", t))
         return "cycle-not-reported" + (":through-feature-scope-include" if nested >= 2 else "")
-    head = p.split(": ")[0]
-    return head[:110]
+    parts = p.split(": ")
+    head = ": ".join(parts[:2]) if parts[0] == "split route" and len(parts) > 1 else parts[0]
+    return head[:140]
 
 
 def run(tier):
@@ -392,7 +393,9 @@ def run(tier):
     def work(job):
         k, cs = job
         return k, cs, run_batch(vapi, cs, wd, f"s{k}", cpu)
-    stats = {"by_kind": {}, "with_diagnostics": 0, "error_free": 0, "validated": 0, "cycles_reported": 0, "tokens": 0, "child_deaths": 0}
+    stats = {"by_kind": {}, "with_diagnostics": 0, "error_free": 0, "validated": 0, "cycles_reported": 0, "tokens": 0, "child_deaths": 0,
+             "split": {"files_split": 0, "include_files": 0, "feature_scope_items": 0, "nested_includes": 0, "with_validation_diagnostics": 0,
+                       "validation_diagnostics_compared": 0, "diagnostics_at_included_file_start": 0}}
     nontrivial = set()
     samples = []
     for k, cs, (results, deaths, watchdog) in common.pmap(work, jobs, workers=shards):
@@ -431,8 +434,19 @@ def run(tier):
                 stats["validated"] += 1
             if info.get("cycle_reported"):
                 stats["cycles_reported"] += 1
+            if info.get("split_files"):
+                sp = stats["split"]
+                sp["files_split"] += 1
+                sp["include_files"] += info["split_files"] - 1
+                sp["feature_scope_items"] += info.get("split_feature_items", 0)
+                sp["nested_includes"] += info.get("split_nested", 0)
+                if info.get("split_validation_diagnostics"):
+                    sp["with_validation_diagnostics"] += 1
+                    sp["validation_diagnostics_compared"] += info["split_validation_diagnostics"]
+                sp["diagnostics_at_included_file_start"] += info.get("split_diagnostics_at_file_start", 0)
             for p in r.get("problems", []):
-                chk.violation(f"parser:{classify_problem(p, c)}", f"input {c['id']} ({c['kind']}, from {c.get('origin', '-')}): {p}"[:600], replay=c)
+                rc = dict(c, split_files_text=info["split_files_text"]) if p.startswith("split route") and "split_files_text" in info else c
+                chk.violation(f"parser:{classify_problem(p, c)}", f"input {c['id']} ({c['kind']}, from {c.get('origin', '-')}): {p}"[:700], replay=rc)
             if len(samples) < 5 and c["kind"] in ("mutation", "include-graph", "soup") and info.get("diagnostics"):
                 samples.append({"kind": c["kind"], "text": c["files"]["root.fea"][:200], "diagnostics": info.get("diagnostics"), "tokens": info.get("tokens")})
     san = {}
@@ -445,7 +459,10 @@ def run(tier):
                 "include graphs (random digraphs, self loops, re-entered cycles, chains of 48-55, missing files), with and without a glyph map whose names "
                 "collide with range syntax; each parsed via parse_root in a child with RLIMIT_AS 2 GiB / RLIMIT_CPU. Checked: no panic, no death, token "
                 "texts concatenate to the input, diagnostic ranges inside their source on char boundaries, display() does not panic, cycles / depth>50 "
-                "reported, validate() total on error-free trees. non-trivial = distinct input with at least one diagnostic.",
+                "reported, validate() total on error-free trees. Split route: every single file that parses without errors under a glyph map is also cut at "
+                "statement boundaries into an include graph (top-level statements alone in a file, runs with a nested include, items of feature blocks); the "
+                "assembled tree must spell the flat text and every parse / validation diagnostic must come back with the same message at the file and "
+                "offset its position was moved to. non-trivial = distinct input with at least one diagnostic.",
         "samples": samples, **stats,
     })
     return chk.finish()
